@@ -4,6 +4,8 @@ import ScyllaVerif.Model.FrameStream
 import ScyllaVerif.Proofs.StreamMap
 import ScyllaVerif.Proofs.Conn
 import ScyllaVerif.Proofs.FrameStream
+import ScyllaVerif.Model.ConnIO
+import ScyllaVerif.Proofs.ConnIO
 /-!
 # C10 — when a connection dies every request in flight on it fails promptly; none hangs
 
@@ -15,7 +17,7 @@ The theorems show that the state machine leaves no waiter once the break event o
 errors) is outside the model; the end-to-end half of the harness observes it under virtual time (a test).
 -/
 namespace ScyllaVerif.Props.C10
-open ScyllaVerif.StreamMap ScyllaVerif.Conn ScyllaVerif.FrameStream
+open ScyllaVerif.StreamMap ScyllaVerif.Conn ScyllaVerif.FrameStream ScyllaVerif.ConnIO
 
 /-! ## 1. a break completes everyone -/
 
@@ -202,6 +204,7 @@ theorem no_delivery_after_break_step (c : Conn) (e : Ev) (hb : c.broken = true) 
     · rcases h with e | e <;> cases e
     · exact h
   | enqueue r' => simpa only [step, hb, if_true] using h
+  | grant r' => simpa only [step, hb, if_true] using h
   | submitRace =>
     simp only [step, hb, if_true, getCaller_setCaller] at h
     split at h
@@ -294,13 +297,16 @@ theorem keepalive_timeout_breaks (c : Conn) (h : Inv c) (hb : c.broken = false) 
 /-- Reading the first `k` bytes of any sequence of (wire-representable) response frames yields exactly the first
 `n` frames for some `n` — never a truncated, altered or invented frame —, and the stream then ends `clean` only
 if the cut is exactly on the boundary after them; otherwise the reader reports a cut inside the header or the
-body (`FrameHeaderParseError` → break). It never reports a bad header. -/
+body (`FrameHeaderParseError` → break). It never reports a bad header. `n` is maximal: the next frame, if there is
+one, is not completely inside the first `k` bytes. (`boundary` is not a success either: on EOF the reader fails
+there too — `eof_always_breaks`.) -/
 theorem cut_never_partial (frames : List Frame) (hwf : ∀ f ∈ frames, f.wf) (k : Nat) :
     ∃ n, n ≤ frames.length ∧ (readFrames ((encodeAll frames).take k)).1 = frames.take n ∧
       (encodeAll (frames.take n)).length ≤ k ∧
       ((readFrames ((encodeAll frames).take k)).2 = .boundary ↔
           (k = (encodeAll (frames.take n)).length ∨ (n = frames.length ∧ (encodeAll frames).length ≤ k))) ∧
-      (∀ w, (readFrames ((encodeAll frames).take k)).2 ≠ .badHeader w) :=
+      (∀ w, (readFrames ((encodeAll frames).take k)).2 ≠ .badHeader w) ∧
+      (n = frames.length ∨ k < (encodeAll (frames.take (n + 1))).length) :=
   readFrames_take frames hwf k
 
 /-- The uncut stream reads back exactly. -/
@@ -318,5 +324,256 @@ example :
     let f1 : Frame := ⟨0, 3, 0x08, [1, 2]⟩
     let f2 : Frame := ⟨0, 7, 0x08, [9, 9, 9]⟩
     readFrames ((encodeAll [f1, f2]).take 21) = ([f1], .cutInBody 2 3) := by decide +kernel
+
+/-- Corruption beyond truncation — ARBITRARY bytes: whatever the peer sends, a frame the reader returns is
+exactly the bytes it consumed (the validated 9-byte header and a body of exactly the announced length, nothing
+more, nothing less) and is wire-representable. No partial frame is ever delivered. -/
+theorem returned_frame_is_exact (bytes : List UInt8) (f : Frame) (rest : List UInt8)
+    (h : readFrame bytes = .frame f rest) : bytes = encode f ++ rest ∧ f.wf :=
+  readFrame_exact bytes f rest h
+
+/-! ## 5. from bytes to the break: the reader (`Model/ConnIO.lean`) -/
+
+/-- In a state with a dead router, whoever waits is in the push window (`broken_waiter_holds_permit` for any
+state satisfying the invariant). -/
+theorem inv_broken_waiter (c : Conn) (h : Inv c) (hb : c.broken = true) (r : Nat)
+    (hw : getCaller c.callers r = some .waiting) : r ∈ c.permits := by
+  obtain ⟨hq, hs, _, hh, _⟩ := h.map.brk hb
+  rcases h.callers.tracked r hw with m | m | ⟨s, hs'⟩ | m
+  · rw [hs] at m; cases m
+  · rw [hq] at m; cases m
+  · rw [hh] at hs'; cases hs'
+  · exact m
+
+/-- The reader is "deliver the whole frames in order, then judge the end of the bytes" (`reader` is the
+recursion the drivers execute; this is the form the theorems use). -/
+theorem reader_is_deliver_then_end (c : Conn) (bytes : List UInt8) (eof : Bool) :
+    (reader c bytes eof).1 = readerEnd (deliverFrames c (readFrames bytes).1) (readFrames bytes).2 eof :=
+  reader_eq bytes c eof
+
+/-- Whatever bytes arrived — whole frames, a cut header, a cut body, garbage, or NOTHING AT ALL after the last
+frame (EOF exactly on a frame boundary: `read_exact` fails with `HeaderIoError`) — once the peer has closed the
+router has ended, and nobody is left waiting (outside the push window). -/
+theorem eof_always_breaks (c : Conn) (h : Inv c) (bytes : List UInt8) :
+    (reader c bytes true).1.broken = true ∧
+    ∀ r, getCaller (reader c bytes true).1.callers r = some .waiting → r ∈ (reader c bytes true).1.permits :=
+  ⟨reader_eof_broken c bytes,
+   fun r hw => inv_broken_waiter _ (inv_reader h bytes true) (reader_eof_broken c bytes) r hw⟩
+
+/-- non-vacuity of the boundary case: one request answered by one whole frame, then FIN: the second request's
+caller gets the error although the stream ended "cleanly" between frames. -/
+example :
+    let c := run Conn.init [.submit, .submit, .writerTake, .writerTake]
+    let c' := (reader c (encode ⟨0, 1, 0x08, [7]⟩) true).1
+    c'.broken = true ∧ getCaller c'.callers 1 = some (.delivered (.frame 1)) ∧
+      getCaller c'.callers 0 = some (.delivered (.err (.broken .frameHeaderParseError))) := by decide +kernel
+
+theorem answers_take {c : Conn} {fs : List Frame} (h : Answers c fs) (n : Nat) : Answers c (fs.take n) := by
+  refine ⟨?_, fun f hf => h.2 f (List.mem_of_mem_take hf)⟩
+  have : (fs.take n).map (·.stream) = (fs.map (·.stream)).take n := by simp
+  rw [this]
+  exact List.Nodup.sublist (List.take_sublist _ _) h.1
+
+theorem readerEnd_keeps {c : Conn} {r : Nat} {st : CallerSt} (hs : getCaller c.callers r = some st)
+    (hne : st ≠ .waiting) (t : Tail) (e : Bool) : getCaller (readerEnd c t e).callers r = some st := by
+  have key : ∀ k, getCaller (step c (.break_ k)).callers r = some st := by
+    intro k
+    simp only [step]
+    split
+    · exact hs
+    · exact doBreak_keeps hs hne k
+  unfold readerEnd
+  cases t <;> simp only <;> (try split) <;> first | exact hs | exact key _
+
+/-- THE END-TO-END STATEMENT. The server writes any sequence of wire-representable frames; the connection is cut
+after ANY number `k` of bytes and the peer closes. Then, for the number `n` of frames completely inside the first
+`k` bytes (`cut_never_partial`: the reader sees exactly `frames.take n`, `n` maximal):
+  1. the router has ended;
+  2. the final state is: `frames.take n` delivered in order, then the break;
+  3. a caller holds a response only if it held it before or one of those `n` complete frames is on the stream
+     that carried its request (no response is manufactured from the cut-off bytes or for anybody else), and a
+     response a caller holds is the one for its own request;
+  4. if the frames answer distinct outstanding requests, every one of the first `n` addressees that was still
+     waiting holds its own response;
+  5. every other caller that was waiting has an error (nobody is left waiting outside the push window). -/
+theorem cut_then_eof (c : Conn) (h : Inv c) (hb : c.broken = false) (frames : List Frame)
+    (hwf : ∀ f ∈ frames, f.wf) (k : Nat) :
+    ∃ n t, n ≤ frames.length ∧ (n = frames.length ∨ k < (encodeAll (frames.take (n + 1))).length) ∧
+      (encodeAll (frames.take n)).length ≤ k ∧
+      let c' := (reader c ((encodeAll frames).take k) true).1
+      c' = readerEnd (deliverFrames c (frames.take n)) t true ∧
+      c'.broken = true ∧
+      (∀ r g, holds c' r g → g = r ∧
+        (holds c r g ∨ ∃ f, f ∈ frames.take n ∧ 0 ≤ f.stream ∧ (f.stream.toNat, r) ∈ c.server)) ∧
+      (Answers c frames → ∀ f, f ∈ frames.take n → ∀ r, (f.stream.toNat, r) ∈ c.server →
+        getCaller c.callers r = some .waiting → getCaller c'.callers r = some (.delivered (.frame r))) ∧
+      (∀ r, getCaller c'.callers r = some .waiting → r ∈ c'.permits) := by
+  obtain ⟨n, hn, hpre, hle, _, _, hmax⟩ := readFrames_take frames hwf k
+  refine ⟨n, (readFrames ((encodeAll frames).take k)).2, hn, hmax, hle, ?_⟩
+  have heq := reader_eq ((encodeAll frames).take k) c true
+  rw [hpre] at heq
+  have hinv : Inv (reader c ((encodeAll frames).take k) true).1 := inv_reader h _ true
+  have hbr := reader_eof_broken c ((encodeAll frames).take k)
+  refine ⟨heq, hbr, ?_, ?_, fun r hw => inv_broken_waiter _ hinv hbr r hw⟩
+  · intro r g hh
+    refine ⟨hinv.callers.own r g hh, ?_⟩
+    rw [heq] at hh
+    exact (deliverFrames_effect h _).2 r g (readerEnd_holds _ _ r g hh)
+  · intro ha f hf r hm hw
+    have := (deliverFrames_delivers h hb (frames.take n) (answers_take ha n)).2 f hf r hm hw
+    rw [heq]
+    exact readerEnd_keeps this (by intro e; cases e) _ _
+
+/-- non-vacuity: three requests, the server answers 2 then 0, the stream is cut inside the second frame's body and
+closed: request 2 holds its response, 0 and 1 hold the connection error. -/
+example :
+    let c := run Conn.init [.submit, .submit, .submit, .writerTake, .writerTake, .writerTake]
+    let bytes := encodeAll [⟨0, 2, 0x08, [1, 2]⟩, ⟨0, 0, 0x08, [3, 4, 5]⟩]
+    let c' := (reader c (bytes.take 20) true).1
+    c'.broken = true ∧ getCaller c'.callers 2 = some (.delivered (.frame 2)) ∧
+      getCaller c'.callers 0 = some (.delivered (.err (.broken .frameHeaderParseError))) ∧
+      getCaller c'.callers 1 = some (.delivered (.err (.broken .frameHeaderParseError))) := by decide +kernel
+
+/-- A garbage header breaks the connection at once, even while the peer stays. -/
+theorem bad_header_breaks (c : Conn) (h : Inv c) (bytes : List UInt8) (eof : Bool) (w : BadHeader)
+    (hbad : (readFrames bytes).2 = .badHeader w) :
+    (reader c bytes eof).1.broken = true ∧
+    ∀ r, getCaller (reader c bytes eof).1.callers r = some .waiting → r ∈ (reader c bytes eof).1.permits :=
+  ⟨reader_bad_header_broken c bytes eof w hbad,
+   fun r hw => inv_broken_waiter _ (inv_reader h bytes eof) (reader_bad_header_broken c bytes eof w hbad) r hw⟩
+
+/-! ### which frames break the connection, precisely (`reader` 1637-1683) -/
+
+/-- A frame on a negative stream (`-1`: an event, no event sender in this configuration; `< -1`: reserved) is
+ignored: nothing changes. -/
+theorem negative_stream_ignored (c : Conn) (f : Frame) (hneg : f.stream < 0) : deliverFrame c f = c := by
+  unfold deliverFrame; simp [hneg]
+
+/-- A frame on a non-negative stream that IS outstanding at the server is that request's answer: the router
+lives on (also when the id was orphaned: `Orphaned`, the frame is dropped, no break). -/
+theorem outstanding_stream_no_break (c : Conn) (h : Inv c) (hb : c.broken = false) (f : Frame)
+    (hpos : 0 ≤ f.stream) (hs : f.stream.toNat ∈ srvStreams c) : (deliverFrame c f).broken = false := by
+  have := (deliverFrames_delivers h hb [f] ⟨by simp, fun g hg => by
+    simp only [List.mem_singleton] at hg; subst hg; exact ⟨hpos, hs⟩⟩).1
+  simpa [deliverFrames] using this
+
+theorem orphaned_answer_is_dropped (c : Conn) (h : Inv c) (hb : c.broken = false) (i s r : Nat)
+    (hi : c.server[i]? = some (s, r)) (ho : s ∈ c.map.orphans) :
+    (step c (.respond i)).broken = false ∧ (step c (.respond i)).callers = c.callers := by
+  simp only [step, hb, Bool.false_eq_true, if_false, hi, hlookup_orphaned ho]
+  exact ⟨trivial, trivial⟩
+
+/-- A frame on a non-negative stream that is NOT outstanding breaks the connection. (This — `s ≥ 0`, `s` not
+outstanding — is the precise domain of `unsolicited_stream_breaks`.) -/
+theorem unowed_stream_frame_breaks (c : Conn) (h : Inv c) (hb : c.broken = false) (f : Frame) (hwf : f.wf)
+    (hpos : 0 ≤ f.stream) (hs : f.stream.toNat ∉ srvStreams c) :
+    (deliverFrame c f).broken = true ∧ (deliverFrame c f).cause = some .unexpectedStreamId := by
+  have hidx : c.server.findIdx? (fun p => p.1 == f.stream.toNat) = none := by
+    apply List.findIdx?_eq_none_iff.mpr
+    intro p hp
+    have : p.1 ≠ f.stream.toNat := fun e => hs (e ▸ mem_streams (s := p.1) (r := p.2) hp)
+    simpa using this
+  have hneg : ¬ f.stream < 0 := by omega
+  have hlt : f.stream.toNat < 32768 := by have := hwf.2.2.1; omega
+  have := unsolicited_stream_breaks c h hb f.stream.toNat hlt (fun r hm => hs (mem_streams hm))
+  unfold deliverFrame
+  simp only [hneg, if_false, hidx]
+  exact ⟨this.1, this.2.1⟩
+
+/-- non-vacuity of `unsolicited_stream_breaks`: request 0 is outstanding on stream 0; a frame on stream 5 breaks
+the connection and request 0 gets `UnexpectedStreamId`. A frame on stream -1 or -7 does not. -/
+example :
+    let c := run Conn.init [.submit, .writerTake]
+    let c5 := deliverFrame c ⟨0, 5, 0x08, []⟩
+    c5.broken = true ∧ getCaller c5.callers 0 = some (.delivered (.err (.broken .unexpectedStreamId))) ∧
+      deliverFrame c ⟨0, -1, 0x0C, []⟩ = c ∧ (deliverFrame c ⟨0, -7, 0x08, []⟩).broken = false := by
+  refine ⟨by decide +kernel, by decide +kernel, negative_stream_ignored _ _ (by decide), ?_⟩
+  rw [negative_stream_ignored _ _ (by decide)]; decide +kernel
+
+/-! ## 6. the keepaliver (`Model/ConnIO.lean` `kaTurn`) -/
+
+theorem break_cause {c : Conn} (hb : c.broken = false) (k : BreakKind) : (step c (.break_ k)).cause = some k := by
+  simp only [step, hb, Bool.false_eq_true, if_false]
+  rfl
+
+/-- A due tick submits the keep-alive request (an ordinary request: fresh id, queued), arms the timeout, and
+schedules the next tick at most one interval later. -/
+theorem keepalive_tick (k : KaSt) (hb : k.c.broken = false) (hp : k.pending = none) (ht : k.clock ≥ k.next) :
+    (kaTurn k).c = step k.c .submit ∧ (kaTurn k).pending = some (k.c.nextReq, k.clock + k.timeout) ∧
+    (kaTurn k).next ≤ k.clock + k.interval ∧ (kaTurn k).clock = k.clock := by
+  unfold kaTurn
+  simp only [hb, Bool.false_eq_true, if_false, hp, ht, if_true]
+  refine ⟨trivial, trivial, ?_, trivial⟩
+  split <;> omega
+
+/-- The keep-alive request is in flight, its deadline has passed and nothing (neither a response nor an error)
+has reached the keepaliver: the router ends — with `KeepaliveTimeout` if it was alive — and nobody is left
+waiting. -/
+theorem keepalive_no_response_breaks (k : KaSt) (h : Inv k.c) (r deadline : Nat)
+    (hp : k.pending = some (r, deadline)) (ht : k.clock ≥ deadline)
+    (hnr : ∀ o, getCaller k.c.callers r ≠ some (.delivered o)) :
+    (kaTurn k).c.broken = true ∧
+    (k.c.broken = false → (kaTurn k).c.cause = some .keepaliveTimeout) ∧
+    ∀ r', getCaller (kaTurn k).c.callers r' = some .waiting → r' ∈ (kaTurn k).c.permits := by
+  cases hb : k.c.broken with
+  | true =>
+    have e : kaTurn k = k := by unfold kaTurn; simp [hb]
+    rw [e]
+    exact ⟨hb, fun hf => Bool.noConfusion hf, fun r' hw => inv_broken_waiter _ h hb r' hw⟩
+  | false =>
+    have e : (kaTurn k).c = step (step k.c (.cancel r)) (.break_ .keepaliveTimeout) := by
+      unfold kaTurn
+      simp only [hb, Bool.false_eq_true, if_false, hp]
+      split
+      · rename_i g hg; exact absurd hg (hnr _)
+      · rename_i g hg; exact absurd hg (hnr _)
+      · simp only [ht, if_true]
+    have hbc : (step k.c (.cancel r)).broken = false := by
+      simp only [step]
+      split <;> exact hb
+    rw [e]
+    refine ⟨break_sets_broken _ _, fun _ => ?_, fun r' hw =>
+      inv_broken_waiter _ ((h.step _).step _) (break_sets_broken _ _) r' hw⟩
+    exact break_cause hbc _
+
+/-- "Stops answering keep-alives": a tick is due; whatever happens afterwards (`evs`: any events of callers,
+writer, orphaner, reader and server), if no outcome reaches the keepaliver's request and at least `timeout` ms
+pass, the keepaliver's next turn ends the router and nobody is left waiting. Since a tick is due at most
+`interval` after the previous one (`keepalive_tick`), a peer that falls silent is detected within
+`interval + timeout` of virtual time. -/
+theorem keepalive_stall_breaks (k : KaSt) (h : Inv k.c) (hp : k.pending = none) (ht : k.clock ≥ k.next)
+    (evs : List Ev) (dt : Nat) (hdt : dt ≥ k.timeout)
+    (hnr : ∀ o, getCaller (run (kaTurn k).c evs).callers k.c.nextReq ≠ some (.delivered o)) :
+    let k1 := kaTurn k
+    let k2 := kaTurn { k1 with c := run k1.c evs, clock := k1.clock + dt }
+    k2.c.broken = true ∧ ∀ r', getCaller k2.c.callers r' = some .waiting → r' ∈ k2.c.permits := by
+  intro k1 k2
+  cases hb : k.c.broken with
+  | true =>
+    have e1 : k1 = k := by show kaTurn k = k; unfold kaTurn; simp [hb]
+    have hb2 : (run k.c evs).broken = true := run_broken_stays evs k.c hb broken_stays
+    have e2 : k2 = { k with c := run k.c evs, clock := k.clock + dt } := by
+      show kaTurn _ = _
+      rw [e1]; unfold kaTurn; simp [hb2]
+    rw [e2]
+    exact ⟨hb2, fun r' hw => inv_broken_waiter _ (h.run evs) hb2 r' hw⟩
+  | false =>
+    obtain ⟨hc, hpend, _, hclk⟩ := keepalive_tick k hb hp ht
+    have hinv : Inv (run k1.c evs) := by
+      show Inv (run (kaTurn k).c evs)
+      rw [hc]; exact (h.step _).run evs
+    have := keepalive_no_response_breaks { k1 with c := run k1.c evs, clock := k1.clock + dt } hinv
+      k.c.nextReq (k.clock + k.timeout) hpend
+      (by show (kaTurn k).clock + dt ≥ k.clock + k.timeout; rw [hclk]; omega) hnr
+    exact ⟨this.1, this.2.2⟩
+
+/-- non-vacuity: one user request in flight, the keep-alive is written too, the server answers neither. -/
+example :
+    let k0 : KaSt := { c := run Conn.init [.submit, .writerTake], interval := 1000, timeout := 300, clock := 1000,
+                       next := 1000 }
+    let k1 := kaTurn k0
+    let k2 := kaTurn { k1 with c := run k1.c [.writerTake], clock := 1300 }
+    k1.pending = some (1, 1300) ∧ k2.c.cause = some .keepaliveTimeout ∧
+      getCaller k2.c.callers 0 = some (.delivered (.err (.broken .keepaliveTimeout))) := by decide +kernel
 
 end ScyllaVerif.Props.C10
